@@ -50,24 +50,30 @@ func (b *baseCockpit) start() *spinner.Spinner {
 		sort.Strings(tasks)
 		s.Suffix = " Running: " + strings.Join(tasks, ", ")
 	}
-	s.Start()
 
 	return s
 }
 
 func (b *baseCockpit) add(t *task.Task) {
 	b.mu.Lock()
-	defer b.mu.Unlock()
-
 	b.tasks = append(b.tasks, t)
 
-	if b.spinner == nil {
-		b.spinner = b.start()
-		go func() {
-			<-b.closeCh
-			b.spinner.Stop()
-		}()
+	if b.spinner != nil {
+		b.mu.Unlock()
+		return
 	}
+
+	s := b.start()
+	b.spinner = s
+	b.mu.Unlock()
+
+	// The spinner calls PreUpdate - which takes b.mu - while it holds its own lock, and Start
+	// needs that lock: b.mu must not be held here.
+	s.Start()
+	go func() {
+		<-b.closeCh
+		s.Stop()
+	}()
 }
 
 func (b *baseCockpit) remove(t *task.Task) {
